@@ -1011,9 +1011,17 @@ class Server(utils.EventEmitter):
                 )
                 self.send_response(bearer, response)
                 return
-            # No need to catch permission errors here, since these attributes
-            # must all be world-readable
-            attribute_value = await attribute.read_value(bearer)
+            try:
+                attribute_value = await attribute.read_value(bearer)
+            except att.ATT_Error as error:
+                # The whole request fails if any of the attributes cannot be read
+                response = att.ATT_Error_Response(
+                    request_opcode_in_error=request.op_code,
+                    attribute_handle_in_error=handle,
+                    error_code=error.error_code,
+                )
+                self.send_response(bearer, response)
+                return
             # Check the attribute value size
             max_attribute_size = min(bearer.att_mtu - 1, 251)
             if len(attribute_value) > max_attribute_size:
@@ -1053,9 +1061,17 @@ class Server(utils.EventEmitter):
                 )
                 self.send_response(bearer, response)
                 return
-            # No need to catch permission errors here, since these attributes
-            # must all be world-readable
-            attribute_value = await attribute.read_value(bearer)
+            try:
+                attribute_value = await attribute.read_value(bearer)
+            except att.ATT_Error as error:
+                # The whole request fails if any of the attributes cannot be read
+                response = att.ATT_Error_Response(
+                    request_opcode_in_error=request.op_code,
+                    attribute_handle_in_error=handle,
+                    error_code=error.error_code,
+                )
+                self.send_response(bearer, response)
+                return
             length = len(attribute_value)
             # Check the attribute value size
             max_attribute_size = min(bearer.att_mtu - 3, 251)
